@@ -17,9 +17,12 @@ def gen_blocks(rng):
         ops.append({"op": "partition", "out": B, "P": "P", "d": d})
         parts.append((B, d))
     points = []
+    labels = rng.choice([None, None, ["x"], ["x", "y"], ["Point_0", "Point_1"], ["block_0", "block_1", "block_2"]])
     for _ in range(rng.choice([1, 2, 3])):
         x = nm("x")
         ops.append({"op": "point", "out": x, "P": "P"})
+        if labels:
+            ops[-1]["name"] = rng.choice(labels)       # names are free labels: they may repeat
         points.append(x)
     funcs = []
     if rng.random() < 0.6:
@@ -68,6 +71,8 @@ def gen_blocks(rng):
             x = rng.choice(points)
             g = nm("g")
             ops.append({"op": "gradient", "out": g, "f": f, "x": x})
+            if labels and rng.random() < 0.3:
+                ops[-1]["name"] = rng.choice(labels)
             points.append(g)
         else:
             x = nm("q")
@@ -79,7 +84,7 @@ def gen_blocks(rng):
 class C15(Prop):
     id = "C15"
     level = "exploration"
-    RUNS = {"quick": 4000, "thorough": 40000}
+    RUNS = {"quick": 3000, "thorough": 40000}
     BUDGET = {"quick": 75, "thorough": 900}
     ORACLES = ("C15", "O-DELIVERY", "O-IMMUT")
     RULE = ("seeded histories over 1-3 partitions (d in 1..5): get_block on leaf points, combinations, aliased points "
